@@ -1,9 +1,10 @@
-/* route_dump: E3 harness of C24/C25/C26.
+/* route_dump2: E3 harness of C24 and C26 (copy of route_dump.cpp, which belongs to C25, plus the QF directive).
  *
  * Reads a file of platform descriptions (see lib/verif/gen/routing.py for the writer), and for each platform forks a
  * child that builds the zones through the C++ platform API (or loads an XML file), seals, and prints
  *    R <src> <dst> <latency %.17g> <n> <link>...        route_to() answer for an ordered host pair
  *    X <src> <dst> <exception text>                      route_to() threw
+ *    XC <src> <dst> <sig:N|exit:N|spin>                  a 'QF' query (run in a forked copy of the child) killed its process
  *    LR <zone> <src> <dst> <gw_src|-> <gw_dst|-> <latency> <n> <link>...   get_local_route() of one zone (private API)
  *    LX <zone> <src> <dst> <exception text>
  * The parent prints  BEGIN <id>  before and  END <id> <ok|exit:N|sig:N|spin|wall> cpu=<s>  after each child.
@@ -319,7 +320,7 @@ static int child(const std::vector<std::string>& lines, double cpu_budget, int a
     auto t = split(l);
     if (t.empty())
       continue;
-    bool is_query = t[0] == "Q" || t[0] == "Q2" || t[0] == "LQ" || t[0] == "LQA" || t[0] == "LINKS";
+    bool is_query = t[0] == "Q" || t[0] == "QF" || t[0] == "Q2" || t[0] == "LQ" || t[0] == "LQA" || t[0] == "LINKS";
     if (is_query && not sealed) { // the API contract: routes are asked on a sealed platform (Engine::run() does this)
       set_query("SEAL", "platform", "", "");
       try {
@@ -339,6 +340,27 @@ static int child(const std::vector<std::string>& lines, double cpu_budget, int a
           for (auto* y : hosts)
             query_route(x, y);
       }
+    } else if (t[0] == "QF") { // QF src dst: the query runs in a forked copy of this child, so that a crash only loses this answer
+      fflush(stdout);
+      pid_t sub = fork();
+      if (sub == 0) {
+        struct itimerval it2;
+        memset(&it2, 0, sizeof it2);
+        it2.it_value.tv_sec  = static_cast<long>(cpu_budget);
+        it2.it_value.tv_usec = static_cast<long>((cpu_budget - static_cast<long>(cpu_budget)) * 1e6);
+        setitimer(ITIMER_PROF, &it2, nullptr);
+        query_route(sg4::Host::by_name(t[1]), sg4::Host::by_name(t[2]));
+        fflush(stdout);
+        _exit(0);
+      }
+      int st = 0;
+      waitpid(sub, &st, 0);
+      if (WIFSIGNALED(st))
+        printf("\nXC %s %s sig:%d\n", t[1].c_str(), t[2].c_str(), WTERMSIG(st));
+      else if (WEXITSTATUS(st) == 3)
+        printf("\nXC %s %s spin\n", t[1].c_str(), t[2].c_str());
+      else if (WEXITSTATUS(st) != 0)
+        printf("\nXC %s %s exit:%d\n", t[1].c_str(), t[2].c_str(), WEXITSTATUS(st));
     } else if (t[0] == "Q2") { // the same pair twice in a row and in both directions (cache hit vs miss)
       auto* x = sg4::Host::by_name(t[1]);
       auto* y = sg4::Host::by_name(t[2]);
